@@ -1,4 +1,178 @@
-(* C06 — Remote blob reads are byte-exact under any server behaviour and concurrency. (statements follow) *)
-From Coq Require Import List ZArith NArith Bool.
-From SV Require Import Model.Region Model.BlobRead Model.BlobFn.
+(* C06 — Remote blob reads are byte-exact under any server behaviour and concurrency.
+   Statements only; every proof is [exact <lemma of Proofs/Region.v or Proofs/BlobRead.v>].
+
+   Vocabulary (Model/BlobRead.v): B is the blob held by the registry; [cfg_ok c B]: the blob's size is the size the
+   client resolved and the chunk size is positive; [resp_honest B r]: whatever form the reply r takes (200 whole body
+   with any Content-Length, 206 single range with any Content-Range, multipart with any parts in any order, any
+   number of unrequested or repeated parts, bodies cut short anywhere, stream broken after any part, 403, 400, any
+   other failure, redirect answers) the bytes it labels as starting at offset b are the blob's bytes from b;
+   [op_ok B o]: the replies carried by op o are honest and a ReadAt offset is >= 0; [expected B off n] = bytes
+   [off, min(off+n, size)) of the blob; [results c s os] = the result of every op of the history os. *)
+From Coq Require Import List ZArith NArith Bool Sorted.
+From SV Require Import Model.Region Model.BlobRead Proofs.Region Proofs.BlobRead.
 Import ListNotations.
+Open Scope Z_scope.
+
+(* regionSet.add keeps the set sorted, pairwise disjoint and non-adjacent, and the new set covers exactly the old
+   bytes plus the added region (for every set satisfying the invariant and every non-empty region). *)
+Theorem C06_region_add_spec :
+  forall rs r, Good rs -> wf_reg r ->
+    Good (add rs r) /\ (forall x, covered (add rs r) x <-> covered rs x \/ inr r x).
+Proof. exact region_add_spec. Qed.
+Print Assumptions C06_region_add_spec.
+
+(* totalSize of such a set is the number of distinct covered bytes: [points rs] lists exactly the covered bytes,
+   without repetition, and has totalSize elements. *)
+Theorem C06_total_size_counts_bytes :
+  forall rs, Good rs ->
+    NoDup (points rs) /\ (forall x, In x (points rs) <-> covered rs x) /\ Z.of_nat (length (points rs)) = total_size rs.
+Proof. exact total_size_card. Qed.
+Print Assumptions C06_total_size_counts_bytes.
+
+(* bytesWriter: however the chunk stream is cut into successive Write calls (any two partitions of the same bytes),
+   the buffer and the writer end up the same, and Write never panics. [bw_writes_effect] in Proofs/BlobRead.v gives the
+   content: window position x receives stream byte destOff + x, everything else is untouched. *)
+Theorem C06_bytes_writer_pieces :
+  forall pieces1 pieces2 p w,
+    0 <= w_base w -> 0 <= w_len w -> 0 <= w_off w -> w_base w + w_len w <= zlen p -> 0 <= w_cur w ->
+    concat pieces1 = concat pieces2 ->
+    bw_writes p w pieces1 = bw_writes p w pieces2 /\ bw_writes p w pieces1 <> None.
+Proof. exact bw_writes_partition. Qed.
+Print Assumptions C06_bytes_writer_pieces.
+
+Theorem C06_bytes_writer_content :
+  forall pieces p w,
+    0 <= w_base w -> 0 <= w_len w -> 0 <= w_off w -> w_base w + w_len w <= zlen p -> 0 <= w_cur w ->
+    exists p', bw_writes p w pieces = Some (p', w_advance w (zlen (concat pieces))) /\
+      length p' = length p /\
+      forall x : nat,
+        let q := w_off w + (Z.of_nat x - w_base w) in      (* stream position that belongs at buffer position x *)
+        let hit := w_base w <= Z.of_nat x < w_base w + w_len w /\ w_cur w <= q < w_cur w + zlen (concat pieces) in
+        (hit -> nth_error p' x = nth_error (concat pieces) (Z.to_nat (q - w_cur w))) /\
+        (~ hit -> nth_error p' x = nth_error p x).
+Proof. exact bw_writes_effect. Qed.
+Print Assumptions C06_bytes_writer_content.
+
+(* Byte-exactness, sequential histories: for every blob, every configuration (size 0, 1, any chunk size > 0, any prefetch
+   chunk size, forced single-range mode or not), every history of ReadAt / Cache / cache eviction / Check / Refresh
+   with every honest reply script (any personality sequence, any failures), every op result is not a panic, and every
+   successful ReadAt(off, n) returned exactly bytes [off, min(off+n, size)) of the blob (nothing beyond EOF). *)
+Theorem C06_read_at_exact :
+  forall c B os, cfg_ok c B -> Forall (op_ok B) os ->
+    forall o r, In (o, r) (results c (init c) os) ->
+      r <> RPanic /\
+      (forall off p0 rs d, o = ReadAt off p0 rs -> r = ROk d -> d = expected B off (zlen p0)).
+Proof. intros c B os Hc Hos. exact (results_spec c B Hc os (init c) (SIs_init c B) Hos). Qed.
+Print Assumptions C06_read_at_exact.
+
+(* The results above are the ones the correspondence check compares with the implementation. *)
+Theorem C06_results_are_outputs :
+  forall c os s, map (fun x : out => fst (fst (fst (fst x)))) (run c s os) = map snd (results c s os).
+Proof. exact run_results. Qed.
+Print Assumptions C06_results_are_outputs.
+
+(* Byte-exactness under concurrency (rely/guarantee): one ReadAt running among any number of other readers and
+   prefetchers.  Every lookup it makes in the shared cache is answered arbitrarily (miss, or the honest chunk: the
+   environment may have inserted or evicted anything in between), in every round of fetchRange the single-flight group
+   makes it leader (its own fetch, any reply script, any mode) or follower (leader's error, or success followed by copies
+   from the cache that may miss -> retry), for any number of rounds.  Then: no panic; a successful read is exact; and
+   every chunk this reader itself committed to the shared cache is the blob's content of that chunk (so it preserves
+   the honesty the other readers rely on). *)
+Theorem C06_read_at_interference :
+  forall c B off p0 lk0 rounds r commits,
+    cfg_ok c B -> 0 <= off -> lookups_honest B lk0 -> Forall (round_honest B) rounds ->
+    read_conc c off p0 lk0 rounds = (r, commits) ->
+    r <> RPanic /\ (forall d, r = ROk d -> d = expected B off (zlen p0)) /\ cache_honest B commits.
+Proof. exact read_conc_spec. Qed.
+Print Assumptions C06_read_at_interference.
+
+(* FetchedSize after any history: it is the number of distinct blob bytes ever committed to the cache ([s_ever] is
+   the log of committed chunks), it lies in [0, size], and all those bytes are bytes of the blob. *)
+Theorem C06_fetched_size_meaning :
+  forall c B os, cfg_ok c B -> Forall (op_ok B) os ->
+    let s := exec c (init c) os in
+    NoDup (points (s_fetched s)) /\
+    (forall x, In x (points (s_fetched s)) <-> covered (s_ever s) x) /\
+    Z.of_nat (length (points (s_fetched s))) = total_size (s_fetched s) /\
+    0 <= total_size (s_fetched s) <= c_size c /\
+    (forall x, covered (s_ever s) x -> 0 <= x < c_size c).
+Proof.
+  intros c B os Hc Hos s.
+  exact (fetched_size_spec c B s Hc (proj1 (exec_inv c B Hc os (init c) (SIs_init c B) Hos))).
+Qed.
+Print Assumptions C06_fetched_size_meaning.
+
+(* FetchedSize never decreases, whatever the next op is and however it ends. *)
+Theorem C06_fetched_size_monotone :
+  forall c B os o, cfg_ok c B -> Forall (op_ok B) os -> op_ok B o ->
+    total_size (s_fetched (exec c (init c) os)) <= total_size (s_fetched (exec c (init c) (os ++ [o]))).
+Proof. exact fetched_size_monotone. Qed.
+Print Assumptions C06_fetched_size_monotone.
+
+(* Concurrent committers: the fetched set is updated by atomic regionSet.add calls (under fetchedRegionSetMu) of
+   the committed chunks, interleaved in any order.  Whatever the order, the set keeps its invariant, covers exactly
+   the committed chunks, and its size depends only on the set of committed bytes. *)
+Theorem C06_fetched_set_any_interleaving :
+  forall c cks, Forall (chunk_in c) cks ->
+    Good (fold_left add cks []) /\
+    (forall x, covered (fold_left add cks []) x <-> covered cks x) /\
+    (forall cks', Forall (chunk_in c) cks' -> (forall x, covered cks x <-> covered cks' x) ->
+       total_size (fold_left add cks []) = total_size (fold_left add cks' [])).
+Proof.
+  intros c cks H. destruct (adds_any_order c cks [] good_nil H) as [G C].
+  split; [exact G|]. split.
+  - intros x. rewrite C. split; [intros [H0|H0]; [destruct (covered_nil _ H0)|exact H0]|auto].
+  - intros cks' H' Hc. exact (adds_order_irrelevant c cks cks' H H' Hc).
+Qed.
+Print Assumptions C06_fetched_set_any_interleaving.
+
+(* ---- non-vacuity ---- *)
+Definition exB : bytes := [1; 2; 3; 4; 5; 6; 7; 8; 9; 10]%N.
+Definition exC : cfg := mkCfg 10 4 0 false.
+Definition exOps : list op :=
+  [ ReadAt 1 (repeat 0%N 5) [R206S (0, 7) [1; 2; 3; 4; 5; 6; 7; 8]%N];
+    Evict (0, 3);
+    (* chunks (0,3) and (8,9) are missing: multi-range request answered 400, retried as one range, answered with more than asked *)
+    ReadAt 0 (repeat 0%N 12) [R400; R200 10 exB];
+    ReadAt 9 (repeat 0%N 5) [] ].
+
+(* the hypotheses of C06_read_at_exact are satisfiable and the history really reads: results and FetchedSize *)
+Example C06_nonvacuous_history :
+  cfg_ok exC exB /\ Forall (op_ok exB) exOps /\
+  map snd (results exC (init exC) exOps)
+    = [ROk [2; 3; 4; 5; 6]%N; ROk []; ROk exB; ROk [10]%N] /\
+  total_size (s_fetched (exec exC (init exC) exOps)) = 10.
+Proof.
+  split; [split; [reflexivity|reflexivity]|]. split.
+  - repeat constructor; try (exists 8%nat; reflexivity); try (exists 10%nat; reflexivity); discriminate.
+  - split; vm_compute; reflexivity.
+Qed.
+
+(* the hypotheses of C06_read_at_interference are satisfiable: a follower whose copy misses the cache (chunk evicted
+   between fetch and copy), retries, follows again, then leads its own fetch answered by a permuted multipart *)
+Example C06_nonvacuous_interference :
+  let rounds := [Follow (fun _ => None);
+                 Follow (fun k => if region_eqb k (4, 7) then Some [5; 6; 7; 8]%N else None);
+                 Lead false [R206M [((8, 9), [9; 10]%N); ((4, 7), [5; 6; 7; 8]%N)] true]] in
+  let lk0 := fun k => if region_eqb k (0, 3) then Some [1; 2; 3; 4]%N else None in
+  lookups_honest exB lk0 /\ Forall (round_honest exB) rounds /\
+  fst (read_conc exC 2 (repeat 0%N 20) lk0 rounds) = ROk [3; 4; 5; 6; 7; 8; 9; 10]%N.
+Proof.
+  intros rounds lk0. split; [|split].
+  - intros k. unfold lk0, lookup_honest. destruct (region_eqb k (0, 3)) eqn:E; auto.
+    apply region_eqb_eq in E. subst. reflexivity.
+  - repeat constructor; try (exists 2%nat; reflexivity); try (exists 4%nat; reflexivity); try discriminate.
+    intros k. unfold lookup_honest. destruct (region_eqb k (4, 7)) eqn:E; auto.
+    apply region_eqb_eq in E. subst. reflexivity.
+  - vm_compute. reflexivity.
+Qed.
+
+(* the assumption "a copy from the cache either misses or delivers the whole chunk" cannot be dropped: if the cache
+   hands a follower a chunk cut short (a cache reader failing in mid-copy), the retry re-uses the half-advanced
+   bytesWriter and ReadAt reports success with wrong bytes.  (Not reachable with cache/cache.go: see the report.) *)
+Example C06_short_cache_copy_breaks_exactness :
+  let B := [10; 11; 12; 13]%N in
+  fst (read_conc (mkCfg 4 4 0 false) 0 (repeat 0%N 4) (fun _ => None)
+         [Follow (fun _ => Some [10; 11]%N); Lead false [R206S (0, 3) B]])
+  = ROk [10; 11; 10; 11]%N.
+Proof. vm_compute. reflexivity. Qed.
